@@ -6,7 +6,7 @@ import ast
 from sa.cfg import CFG, handler_names
 from sa.expr import bitor_names, cmp_atom, const_str, edges_where, resolve, single_defs
 from sa.loader import Program, dotted, norm, own_nodes
-from sa.util import ancestors, enclosing_with_items, parent_map, self_attr, where
+from sa.util import ancestors, enclosing_with_items, kwarg, parent_map, self_attr, where
 
 MOD = "optuna.storages.journal._file"
 BACKEND = MOD + ".JournalFileBackend"
@@ -50,6 +50,16 @@ def rule_write_under_lock(ctx, rule):
                 if (isinstance(ce, ast.Call) and (dotted(ce.func) or "").endswith("get_lock_file")
                         and ce.args and norm(resolve(ce.args[0], single_defs(f.node))) == "self._lock"):
                     held = True
+            if is_wopen:
+                # a raw (unbuffered) file object hands each write() to the OS once and returns the number of bytes it
+                # took; the buffered default keeps writing until everything is delivered. With buffering=0 a short write
+                # silently drops the tail of a record (and its newline), the next append is glued onto it.
+                bufarg = kwarg(c, "buffering", 2)
+                raw = isinstance(bufarg, ast.Constant) and bufarg.value == 0
+                ctx.check(not raw, rule, f.short, "append-through-buffered-file",
+                          message=f"{cls.name}.{mname}: `{norm(c)[:60]}` opens the journal unbuffered and the byte count returned by write() is not "
+                                  f"consumed: when the OS accepts only part of the bytes the rest of the record vanishes",
+                          how="default buffering (write() delivers all bytes or raises)", where=where(f, c))
             ctx.check(held, rule, f.short, "write-under-file-lock:" + ("write" if is_write else "open"),
                       message=f"{cls.name}.{mname}: `{norm(c)[:60]}` touches the journal file for "
                               f"writing outside `with get_lock_file(self._lock)`",
